@@ -19,6 +19,7 @@ import (
 	"testing"
 	"time"
 
+	"github.com/libp2p/go-libp2p/core/connmgr"
 	"github.com/libp2p/go-libp2p/core/network"
 	"github.com/libp2p/go-libp2p/core/peer"
 	"github.com/libp2p/go-libp2p/x/verif/vrep"
@@ -306,6 +307,34 @@ func c14sScenarios(thorough bool) []c14sScn {
 					func() {
 						vs.Locked(func() { e.fresh["D1"] = true })
 						e.connect("D1", "D") // the record stops being temporary: its grace period starts now
+					},
+				}
+			}},
+		{Name: "a decaying tag is bumped and then closed", Bound: 3, Low: 3, Hi: 4, Peers: []string{"A", "B", "C"}, Tags: map[string]int{"A": 10, "B": 7},
+			Race: func(e *c14sEnv) []func() {
+				return []func(){
+					func() {
+						dec, ok := connmgr.SupportsDecay(e.cm)
+						if !ok {
+							panic("c14s: no decayer")
+						}
+						tag, err := dec.RegisterDecayingTag("verif-decaying", time.Hour, connmgr.DecayNone(), connmgr.BumpSumUnbounded())
+						if err != nil {
+							panic(err)
+						}
+						// one caller, one after the other: the bump is accepted, then the tag is closed; a closed tag contributes
+						// nothing to any peer
+						// (the first bump keeps the decayer busy, so that the second bump and the close are both queued when
+						// it comes back to its select)
+						if err := tag.Bump(c14sPeer("B"), 1); err != nil {
+							panic(err)
+						}
+						if err := tag.Bump(c14sPeer("A"), 5); err != nil {
+							panic(err)
+						}
+						if err := tag.Close(); err != nil {
+							panic(err)
+						}
 					},
 				}
 			}},
